@@ -433,7 +433,38 @@ def t_walrus(tree):
     return _rec_blocks(tree, visit)
 
 
-TRANSFORMS = {"rename": t_rename, "flip": t_flip, "copy": t_copy, "rettemp": t_rettemp, "elseret": t_elseret, "rename2": t_rename2, "nestand": t_nestand, "guard": t_guard, "testtemp": t_testtemp,
+def t_tiny(tree):
+    """equivalent micro-rewrites: a literal on the left of `==` / `!=`; `x[:i]` -> `x[0:i]`; `for i, v in enumerate(xs)` (xs a plain name) ->
+    `for i in range(len(xs)): v = xs[i]`"""
+    class R(ast.NodeTransformer):
+        def visit_Compare(self, n):
+            self.generic_visit(n)
+            if len(n.ops) == 1 and isinstance(n.ops[0], (ast.Eq, ast.NotEq)) and isinstance(n.comparators[0], ast.Constant) and isinstance(n.comparators[0].value, str) \
+                    and not isinstance(n.left, ast.Constant):
+                return ast.copy_location(ast.Compare(left=n.comparators[0], ops=n.ops, comparators=[n.left]), n)
+            return n
+
+        def visit_Subscript(self, n):
+            self.generic_visit(n)
+            if isinstance(n.slice, ast.Slice) and n.slice.lower is None and n.slice.upper is not None and n.slice.step is None and isinstance(n.ctx, ast.Load):
+                n.slice.lower = ast.Constant(value=0)
+            return n
+
+        def visit_For(self, n):
+            self.generic_visit(n)
+            if isinstance(n.target, ast.Tuple) and len(n.target.elts) == 2 and all(isinstance(e, ast.Name) for e in n.target.elts) and isinstance(n.iter, ast.Call) \
+                    and isinstance(n.iter.func, ast.Name) and n.iter.func.id == "enumerate" and len(n.iter.args) == 1 and isinstance(n.iter.args[0], ast.Name) and not n.iter.keywords:
+                i, v, xs = n.target.elts[0].id, n.target.elts[1].id, n.iter.args[0].id
+                n.target = ast.Name(id=i, ctx=ast.Store())
+                n.iter = ast.Call(func=ast.Name(id="range", ctx=ast.Load()), args=[ast.Call(func=ast.Name(id="len", ctx=ast.Load()), args=[ast.Name(id=xs, ctx=ast.Load())], keywords=[])], keywords=[])
+                n.body = [ast.Assign(targets=[ast.Name(id=v, ctx=ast.Store())], value=ast.Subscript(value=ast.Name(id=xs, ctx=ast.Load()), slice=ast.Name(id=i, ctx=ast.Load()), ctx=ast.Load()))] + n.body
+            return n
+    tree = R().visit(tree)
+    ast.fix_missing_locations(tree)
+    return tree
+
+
+TRANSFORMS = {"tiny": t_tiny, "rename": t_rename, "flip": t_flip, "copy": t_copy, "rettemp": t_rettemp, "elseret": t_elseret, "rename2": t_rename2, "nestand": t_nestand, "guard": t_guard, "testtemp": t_testtemp,
               "noann": t_noann, "kwargs": t_kwargs, "demorgan": t_demorgan, "renamefn": t_renamefn, "methodorder": t_methodorder, "splitor": t_splitor, "renamecls": t_renamecls, "calltemp": t_calltemp, "walrus": t_walrus}
 
 
